@@ -77,6 +77,9 @@ def check(run: Run) -> None:
     sents = pyprog.sentences(run, run.tier, g)
     cases = pyprog.programs(run, run.tier, sents, cfg["variants"], cfg["layouts"], cap_per_layer=cfg["cap"])
     cases += corpus_cases(cfg)
+    from . import c02
+
+    cases += [{"src": t, "mode": "exec", "layer": "operand-matrix", "layout": "matrix", "variant": 0} for t in c02.operand_matrix() if in_domain(t)]
     # the file entry point must build the same trees: every 7th module-mode program (seed-shifted) and every layout variant of the corpus
     from ..core import SEED
 
